@@ -82,6 +82,13 @@ FEATURES = {
     "index_pair_eq": ("cmp", "eq", ("idx", A(X, "vals"), 0), ("idx", A(X, "vals"), 1)),
     "index_pair_ne": ("cmp", "ne", ("idx", A(X, "vals"), 0), ("idx", A(X, "vals"), -1)),
     "index_pair_two_vars": ("cmp", "eq", ("idx", A(X, "vals"), 0), ("idx", A(Y, "vals"), 1)),
+    # order comparisons over PARTIALLY ordered values (sets by inclusion, NaN): not (a < b) is not (a >= b)
+    "set_lt": ("cmp", "lt", ("call", X, "ts", ()), ("call", Y, "ts", ())),
+    "set_le": ("cmp", "le", ("call", X, "ts", ()), ("call", Y, "ts", ())),
+    "set_gt_own_next": ("cmp", "gt", ("call", A(X, "nxt"), "ts", ()), ("call", X, "ts", ())),
+    "set_ge": ("cmp", "ge", ("call", X, "ts", ()), ("call", Y, "ts", ())),
+    "nan_lt_lit": ("cmp", "lt", ("call", X, "fv", ()), L(1.0)),
+    "nan_ge": ("cmp", "ge", ("call", X, "fv", ()), ("call", Y, "fv", ())),
     "call_pair_eq": ("cmp", "eq", ("call", X, "m", (1,)), ("call", X, "m", (2,))),
     "call_pair_ne": ("cmp", "ne", ("call", X, "m", (0,)), ("call", X, "m", (1,))),
     # calls whose arguments are expressions over the same and over another variable
